@@ -31,8 +31,9 @@ RBmp(r) == LET bc == RDepth(r)  w == Below(RS(r), 2, 0, 71)  h == Below(RS(r), 3
             rows |-> [y \in 1..Abs(h) |-> [x \in 1..Pitch(w, bc) |-> Below(RS(r), 10 + y, x, 256)]]]
 \* the header's used-colour count: 0 may stand for a full palette; a partial palette must be announced
 RUsed(r, b) == IF Len(b.palette) = MaxPalette(b.bc) /\ Below(RS(r), 40, 0, 2) = 0 THEN 0 ELSE Len(b.palette)
-RTileset(r) == LET h == 32 * Below(RS(r), 50, 0, 4) * (IF Below(RS(r), 51, 0, 2) = 0 THEN 1 ELSE -1) IN
-  [w |-> 32, h |-> h, bc |-> 8, palette |-> [i \in 1..256 |-> <<Below(RS(r), 52, i, 256), Below(RS(r), 53, i, 256), Below(RS(r), 54, i, 256), Below(RS(r), 55, i, 256)>>],
+RTileset(r) == LET h == 32 * Below(RS(r), 50, 0, 4) * (IF Below(RS(r), 51, 0, 2) = 0 THEN 1 ELSE -1)
+                  np == IF Below(RS(r), 57, 0, 3) = 0 THEN 1 + Below(RS(r), 58, 0, 255) ELSE 256 IN
+  [w |-> 32, h |-> h, bc |-> 8, palette |-> [i \in 1..np |-> <<Below(RS(r), 52, i, 256), Below(RS(r), 53, i, 256), Below(RS(r), 54, i, 256), Below(RS(r), 55, i, 256)>>],
    rows |-> [y \in 1..Abs(h) |-> [x \in 1..32 |-> Below(RS(r), 56 + (y % 7), x + y, 256)]]]
 \* ---- one TLC state per case: (family, parameters).  The laws of the bitmap description are INVARIANTs over the state's bitmap value;
 \*      Export (always true) prints the state's scenario. ---------------------------------------------------------------------------------
@@ -41,6 +42,8 @@ Init == \/ fam = "full" /\ par \in {<<bc, w, h>> : bc \in Depths, w \in 0..MaxWi
         \/ fam = "factory2" /\ par \in {<<bc, w, h, k>> : bc \in Depths, w \in {0, 1, 5, 9, 33}, h \in {-2, 0, 1, 3}, k \in {0, 1, 2}}
         \/ fam = "rand" /\ par \in {<<r>> : r \in 1..NRand}
         \/ fam = "ts-rand" /\ par \in {<<r>> : r \in 1..(NRand \div 10)}
+        \/ fam = "ts-partial" /\ par \in {<<h, k>> : h \in {32, -64}, k \in {1, 2, 100, 255}}        \* a tileset stored as a standard bitmap that declares k used colours
+        \/ fam = "wide" /\ par \in {<<bc, w, h>> : bc \in {1}, w \in {65535, 65536, 65537, 131073}, h \in {1, -2}} \cup {<<8, 65536, 1>>, <<4, 65540, -1>>}
         \/ fam = "ts" /\ par \in {<<h, seed>> : h \in {0, 32, -32, 64}, seed \in {0, 5}}
         \/ fam = "tsbad" /\ par = <<>>
         \/ fam = "det" /\ par \in {<<b1, b2, b3, b4, pos>> : b1 \in {80, 81}, b2 \in {66, 67}, b3 \in {77, 78}, b4 \in {80, 81}, pos \in {0, 3}} \cup {<<66, 77, 1, 2, 0>>}
@@ -55,6 +58,8 @@ Value == CASE fam = "full" -> B(par[2], par[3], par[1], MaxPalette(par[1]), par[
            [] fam = "rand" -> RBmp(par[1])
            [] fam = "ts-rand" -> RTileset(par[1])
            [] fam = "ts" -> TS(par[1], par[2])
+           [] fam = "ts-partial" -> [TS(par[1], 3) EXCEPT !.palette = SubSeq(@, 1, par[2])]
+           [] fam = "wide" -> [w |-> par[2], h |-> par[3], bc |-> par[1], palette |-> Pal(MaxPalette(par[1]), 3), rows |-> [r \in 1..Abs(par[3]) |-> [i \in 1..Pitch(par[2], par[1]) |-> IF i <= RowBytes(par[2], par[1]) - 1 THEN (i * 7 + r) % 256 ELSE 0]]]
            [] OTHER -> B(0, 0, 8, 256, 0)
 \* model-level laws
 ValueIsValid == Valid(Value)
@@ -63,14 +68,16 @@ FlipReversesRows == LET f == Flip(Value) IN f.h = -Value.h /\ \A i \in 1..Len(f.
 \* what the writer emits is again a valid image of the same geometry with zero padding and a full palette
 CanonIsCanonical == LET c == Canon(Value) IN Valid(c) /\ Canon(c) = c /\ Len(c.palette) = MaxPalette(c.bc) /\ c.w = Value.w /\ c.h = Value.h
 EncodedLength == Len(Encode(Value)) = 54 + 4 * MaxPalette(Value.bc) + Pitch(Value.w, Value.bc) * Abs(Value.h)
-TilesetLaws == fam \in {"ts", "ts-rand"} => IsTileset(Value) /\ Len(EncodeCustom(Value)) = 1096 + 32 * Abs(Value.h) /\ TopDown(Value).h <= 0
+TilesetLaws == fam \in {"ts", "ts-rand", "ts-partial"} => IsTileset(Value) /\ Len(EncodeCustom(Value)) = 1096 + 32 * Abs(Value.h) /\ TopDown(Value).h <= 0
 Export ==
   CASE fam = "full" -> Emit(<<"full", par>>, << BmpRT(Value, 0), Factory(par[2], par[3], par[1]) >>)
     [] fam = "partial" -> Emit(<<"partial", par>>, << BmpRT(Value, Len(Value.palette)) >>)
     [] fam = "factory2" -> Emit(<<"factory2", par>>, << Factory2(Value) >>)
     [] fam = "rand" -> (Len(Value.palette) > 0 => Emit(<<"rand", Seed, par>>, << BmpRT(Value, RUsed(par[1], Value)), Factory2(Value) >>))
-    [] fam = "ts-rand" -> Emit(<<"ts-rand", Seed, par>>, << [op |-> "tileset", bmp |-> Encode(Value), custom |-> EncodeCustom(Value), top |-> Encode(TopDown(Value))] >>)
+    [] fam = "ts-rand" -> Emit(<<"ts-rand", Seed, par>>, << [op |-> "tileset", bmp |-> ImageWith(Value, IF Len(Value.palette) = 256 THEN 0 ELSE Len(Value.palette)), custom |-> EncodeCustom(Value), top |-> Encode(TopDown(Value))] >>)
     [] fam = "ts" -> Emit(<<"ts", par>>, << TsCase(par[1], par[2]) >>)
+    [] fam = "ts-partial" -> Emit(<<"ts-partial", par>>, << [op |-> "tileset", bmp |-> ImageWith(Value, Len(Value.palette)), custom |-> EncodeCustom(Value), top |-> Encode(TopDown(Value))] >>)
+    [] fam = "wide" -> Emit(<<"wide", par>>, << Factory(par[2], par[3], par[1]), Factory2(Value) >>)
     [] fam = "tsbad" -> Emit(<<"tsbad">>, << TsBad(32, 32, 4), TsBad(31, 32, 8), TsBad(33, 32, 8), TsBad(32, 33, 8), TsBad(32, -31, 8) >>)
     [] OTHER -> Emit(<<"det", par>>, << Detect(<<par[1], par[2], par[3], par[4]>>, par[5]) >>)
 ====
